@@ -636,6 +636,10 @@ Error RALocalAllocator::alloc_instruction(InstNode* node) noexcept {
             uint32_t rm_size = tied_reg->rm_size();
 
             if (rm_size <= work_reg->virt_reg()->virt_size()) {
+              if (ASMJIT_UNLIKELY(!_pass.get_or_create_stack_slot(work_reg))) {
+                return make_error(Error::kOutOfMemory);
+              }
+
               Operand& op = node->operands()[op_index];
               op = _pass.work_reg_as_mem(work_reg);
 
